@@ -1,5 +1,5 @@
 (* Proofs about the Alephium watcher model (C08 / C09). *)
-From Coq Require Import List ZArith Bool Lia.
+From Coq Require Import List ZArith Bool Lia Arith.
 From WH Require Import gen.Extracted model.AlphWatcher.
 Import ListNotations.
 Open Scope Z_scope.
@@ -13,6 +13,7 @@ Proof. intros x H. unfold wrap32. rewrite Z.mod_small by lia. lia. Qed.
 Lemma wrap64_id : forall x, -9223372036854775808 <= x <= 9223372036854775807 -> wrap64 x = x.
 Proof. intros x H. unfold wrap64. rewrite Z.mod_small by lia. lia. Qed.
 
+(* the hold time of the property statement: level block intervals, on mainnet max(level, 205) for transfers *)
 Definition hold (mainnet : bool) (m : wmsg) : Z :=
   if mainnet && is_transfer m then Z.max (m_cl m) 205 * 16000 else m_cl m * 16000.
 
@@ -28,4 +29,686 @@ Proof.
   rewrite wrap32_id by lia. rewrite wrap64_id by lia.
   unfold alph_height_short, alph_time_short.
   destruct (h_height h + m_cl m >? height) eqn:A; destruct (h_ts h + hold mn m >? now) eqn:B; split; intros; try discriminate; try lia; auto.
+Qed.
+
+(* the hold is never shorter than `level` intervals, and on mainnet never shorter than 205 intervals for a transfer *)
+Lemma hold_ge_level : forall mn m, 0 <= m_cl m -> m_cl m * 16000 <= hold mn m.
+Proof. intros mn m H. unfold hold. destruct (mn && is_transfer m); lia. Qed.
+Lemma hold_mainnet_transfer : forall m, is_transfer m = true -> hold true m = Z.max (m_cl m) 205 * 16000.
+Proof. intros m H. unfold hold. rewrite H. reflexivity. Qed.
+
+(* ------------------------------------------------------------------ GetTokenInfo never panics (repaired nil tests) *)
+Lemma shape_test_same : forall rs i, shape_test rs i i <> ShPanic.
+Proof.
+  intros rs i. unfold shape_test. destruct (nth i rs CFailed) as [|rets] eqn:E; cbn [succeeded negb].
+  - discriminate.
+  - destruct rets as [|v [|w t]]; discriminate.
+Qed.
+
+Lemma tokinfo_tests_own : alph_tokinfo_tests = (0, 1, 2)%nat.
+Proof. reflexivity. Qed.
+
+Lemma get_token_info_no_panic : forall id a, get_token_info id a <> TiPanic.
+Proof.
+  intros id a. unfold get_token_info. destruct (id =? alph_native_id); [discriminate|].
+  destruct a as [|rs]; [discriminate|].
+  destruct (negb (Nat.eqb (length rs) 3)); [discriminate|].
+  rewrite tokinfo_tests_own.
+  pose proof (shape_test_same rs 0) as P0. pose proof (shape_test_same rs 1) as P1. pose proof (shape_test_same rs 2) as P2.
+  destruct (shape_test rs 0 0); try discriminate; try congruence.
+  destruct (shape_test rs 1 1); try discriminate; try congruence.
+  destruct (shape_test rs 2 2); try discriminate; try congruence.
+  destruct (to_bytevec v); [|discriminate]. destruct (to_bytevec v0); [|discriminate]. destruct (to_uint8 v1); discriminate.
+Qed.
+
+Lemma tokinfo_eqb_eq : forall a b, tokinfo_eqb a b = true -> a = b.
+Proof.
+  intros [a1 a2 a3 a4] [b1 b2 b3 b4]. unfold tokinfo_eqb. cbn [ti_id ti_dec ti_sym ti_name]. intro H.
+  apply andb_prop in H as [H H4]. apply andb_prop in H as [H H3]. apply andb_prop in H as [H1 H2].
+  apply Z.eqb_eq in H1, H2, H3, H4. subst. reflexivity.
+Qed.
+
+Lemma validate_attest_no_panic : forall m a, validate_attest m a <> VaPanic.
+Proof.
+  intros m a. unfold validate_attest. destruct (m_tok m) as [ti|]; [|discriminate].
+  pose proof (get_token_info_no_panic (ti_id ti) a) as P.
+  destruct (get_token_info (ti_id ti) a) as [t| |]; try discriminate; try congruence.
+  destruct (tokinfo_eqb ti t); discriminate.
+Qed.
+
+(* what a successful validation means: the payload decodes and equals the token contract's answer *)
+Lemma validate_attest_ok : forall m a t, validate_attest m a = VaOk t ->
+  m_tok m = Some t /\ get_token_info (ti_id t) a = TiOk t.
+Proof.
+  intros m a t. unfold validate_attest. destruct (m_tok m) as [ti|]; [|discriminate].
+  destruct (get_token_info (ti_id ti) a) as [t'| |] eqn:G; try discriminate.
+  destruct (tokinfo_eqb ti t') eqn:E; [|discriminate]. intro H. injection H as <-.
+  apply tokinfo_eqb_eq in E. subst t'. split; [reflexivity|exact G].
+Qed.
+
+(* ------------------------------------------------------------------ handleUnconfirmedEvents: every event is judged on its own *)
+Lemma unconv_skipped : alph_unconv_aborts = false.
+Proof. reflexivity. Qed.
+
+(* contribution of one event of the stream to the batch *)
+Definition keep1 (a : mc_ans) (e : cevent) : list uevent := match classify a e with Keep u => [u] | _ => [] end.
+
+Lemma classify_cases : forall a e, classify a e = Skip \/ exists u, classify a e = Keep u.
+Proof.
+  intros a e. unfold classify. rewrite unconv_skipped. destruct (to_unconfirmed e) as [m|]; [|left; reflexivity].
+  destruct (is_attest m).
+  - pose proof (validate_attest_no_panic m a) as P. destruct (validate_attest m a); try congruence; [right; eexists; reflexivity | left; reflexivity].
+  - right. eexists. reflexivity.
+Qed.
+
+Fixpoint keep_from (tok : Z -> mc_ans) (idx : Z) (evs : list cevent) : list uevent :=
+  match evs with [] => [] | e :: t => keep1 (tok idx) e ++ keep_from tok (idx + 1) t end.
+
+Lemma handle_unconfirmed_spec : forall tok evs idx, handle_unconfirmed tok idx evs = HuOk (keep_from tok idx evs).
+Proof.
+  intros tok evs. induction evs as [|e t IH]; intro idx; cbn [handle_unconfirmed keep_from]; [reflexivity|].
+  unfold keep1. destruct (classify_cases (tok idx) e) as [H | [u H]]; rewrite H, IH; reflexivity.
+Qed.
+
+Lemma keep_from_app : forall tok a b idx,
+  keep_from tok idx (a ++ b) = keep_from tok idx a ++ keep_from tok (idx + Z.of_nat (length a)) b.
+Proof.
+  intros tok a. induction a as [|e t IH]; intros b idx.
+  - cbn [app keep_from length]. f_equal. lia.
+  - cbn [app keep_from length]. rewrite IH, <- app_assoc. do 3 f_equal. lia.
+Qed.
+
+(* a malformed event (one toUnconfirmedEvent rejects) contributes nothing, and changes nothing else *)
+Lemma keep1_malformed : forall a e, to_unconfirmed e = None -> keep1 a e = [].
+Proof. intros a e H. unfold keep1, classify. rewrite H, unconv_skipped. reflexivity. Qed.
+
+Lemma keep_from_one_event : forall tok a e b idx,
+  keep_from tok idx (a ++ e :: b) =
+  keep_from tok idx a ++ keep1 (tok (idx + Z.of_nat (length a))) e ++ keep_from tok (idx + Z.of_nat (length a) + 1) b.
+Proof. intros. rewrite keep_from_app. cbn [keep_from]. reflexivity. Qed.
+
+Lemma keep_from_malformed_transparent : forall tok a e b idx, to_unconfirmed e = None ->
+  keep_from tok idx (a ++ e :: b) = keep_from tok idx a ++ keep_from tok (idx + Z.of_nat (length a) + 1) b.
+Proof. intros. rewrite keep_from_one_event, keep1_malformed by assumption. reflexivity. Qed.
+
+(* a well-formed non-attestation event is kept whatever its sender (the sender filter comes after confirmation) *)
+Lemma keep1_plain : forall a e m, to_unconfirmed e = Some m -> is_attest m = false ->
+  keep1 a e = [ {| u_ev := e; u_msg := m; u_chain := None |} ].
+Proof. intros a e m H A. unfold keep1, classify. rewrite H, A. reflexivity. Qed.
+
+Lemma keep1_attest : forall a e m, to_unconfirmed e = Some m -> is_attest m = true ->
+  keep1 a e = match validate_attest m a with VaOk t => [ {| u_ev := e; u_msg := m; u_chain := Some t |} ] | _ => [] end.
+Proof. intros a e m H A. unfold keep1, classify. rewrite H, A. destruct (validate_attest m a); reflexivity. Qed.
+
+(* every kept element stems from its event *)
+Definition good (u : uevent) : Prop :=
+  to_unconfirmed (u_ev u) = Some (u_msg u) /\
+  (is_attest (u_msg u) = true -> exists t, u_chain u = Some t /\ m_tok (u_msg u) = Some t).
+
+Lemma keep1_good : forall a e u, In u (keep1 a e) -> u_ev u = e /\ good u /\
+  (is_attest (u_msg u) = true -> exists t, u_chain u = Some t /\ get_token_info (ti_id t) a = TiOk t).
+Proof.
+  intros a e u. unfold keep1, classify. destruct (to_unconfirmed e) as [m|] eqn:T.
+  - destruct (is_attest m) eqn:A.
+    + destruct (validate_attest m a) as [t| |] eqn:V; cbn [In]; try tauto.
+      intros [<-|[]]. unfold good. cbn [u_ev u_msg u_chain]. apply validate_attest_ok in V as [V1 V2].
+      split; [reflexivity|]. split; [split; [exact T|intros _; exists t; auto]|intros _; exists t; auto].
+    + cbn [In]. intros [<-|[]]. unfold good. cbn [u_ev u_msg u_chain]. split; [reflexivity|]. split; [split; [exact T|]|]; rewrite A; discriminate.
+  - rewrite unconv_skipped. cbn [In]. tauto.
+Qed.
+
+Lemma keep_from_in : forall tok evs idx u, In u (keep_from tok idx evs) ->
+  exists i e, In e evs /\ In u (keep1 (tok i) e).
+Proof.
+  intros tok evs. induction evs as [|e t IH]; intros idx u; cbn [keep_from]; [intros []|].
+  intro H. apply in_app_or in H as [H|H].
+  - exists idx, e. split; [left; reflexivity|exact H].
+  - destruct (IH _ _ H) as (i & e' & I & K). exists i, e'. split; [right; exact I|exact K].
+Qed.
+
+(* ------------------------------------------------------------------ segments of the event stream *)
+Lemma skipn_plus : forall {A} (l : list A) a b, skipn (a + b) l = skipn b (skipn a l).
+Proof.
+  intros A l a. revert l. induction a as [|a IH]; intros l b; [reflexivity|].
+  destruct l as [|x l]; cbn [plus skipn]; [rewrite skipn_nil; reflexivity|apply IH].
+Qed.
+Lemma firstn_plus_skip : forall {A} (l : list A) n m, firstn (n + m) l = firstn n l ++ firstn m (skipn n l).
+Proof.
+  intros A l n. revert l. induction n as [|n IH]; intros l m; [reflexivity|].
+  destruct l as [|x l]; cbn [plus firstn skipn app]; [rewrite firstn_nil; reflexivity|f_equal; apply IH].
+Qed.
+
+Lemma In_firstn : forall {A} (l : list A) n x, In x (firstn n l) -> In x l.
+Proof.
+  intros A l. induction l as [|y l IH]; intros n x H; destruct n; cbn [firstn] in H; try destruct H as [H|H]; try (destruct H; fail).
+  - left. exact H.
+  - right. eapply IH. exact H.
+Qed.
+Lemma In_skipn : forall {A} (l : list A) n x, In x (skipn n l) -> In x l.
+Proof.
+  intros A l. induction l as [|y l IH]; intros n x H; destruct n; cbn [skipn] in H; try exact H.
+  right. eapply IH. exact H.
+Qed.
+
+Section Stream.
+Variable log : list cevent.     (* the governance contract's event stream (append-only; the part that ever becomes visible) *)
+
+Definition seg (s : Z) (n : nat) : list cevent := firstn n (skipn (Z.to_nat s) log).
+Definition loglen : Z := Z.of_nat (length log).
+
+Lemma seg_length : forall s n, 0 <= s -> s + Z.of_nat n <= loglen -> length (seg s n) = n.
+Proof.
+  intros s n Hs H. unfold seg, loglen in *. rewrite firstn_length, skipn_length. lia.
+Qed.
+
+Lemma seg_app : forall s n m, 0 <= s -> seg s (n + m) = seg s n ++ seg (s + Z.of_nat n) m.
+Proof.
+  intros s n m Hs. unfold seg. replace (Z.to_nat (s + Z.of_nat n)) with (Z.to_nat s + n)%nat by lia.
+  rewrite skipn_plus. apply firstn_plus_skip.
+Qed.
+
+Lemma seg_in : forall s n e, In e (seg s n) -> In e log.
+Proof.
+  intros s n e H. unfold seg in H. apply In_firstn in H. apply In_skipn in H. exact H.
+Qed.
+
+(* well-behaved paging during one poll that obtained `count`: every page request is answered with a segment of the
+   stream starting at the requested index (whatever page size, whatever has landed meanwhile), and the answer is not
+   empty while the requested index is below the count the node has already reported *)
+Definition wb_pages (pg : nat -> Z -> page_ans) (count : Z) : Prop :=
+  forall k s, 0 <= s -> exists n : nat,
+    pg k s = Page (seg s n) (s + Z.of_nat n) /\ s + Z.of_nat n <= loglen /\ (s < count -> (0 < n)%nat).
+
+Lemma page_exit_ge : forall next count, alph_page_exit next count = (next >=? count).
+Proof. reflexivity. Qed.
+
+Lemma page_loop_wb : forall pg tok count, wb_pages pg count ->
+  forall fuel k cur acc, 0 <= cur -> (Z.to_nat (count - cur) < fuel)%nat ->
+  exists from' j, page_loop pg tok fuel k cur count acc =
+                  PBatch from' (acc ++ keep_from tok cur (seg cur (Z.to_nat (from' - cur)))) (k + j)
+    /\ count <= from' /\ cur <= from' <= loglen /\ (1 <= j)%nat /\ Z.of_nat j <= Z.max 1 (count - cur).
+Proof.
+  intros pg tok count WB. induction fuel as [|f IH]; intros k cur acc Hc Hf; [lia|].
+  destruct (WB k cur Hc) as (n & Hp & Hl & Hn).
+  cbn [page_loop]. rewrite Hp, handle_unconfirmed_spec, page_exit_ge.
+  destruct (cur + Z.of_nat n >=? count) eqn:E.
+  - exists (cur + Z.of_nat n), 1%nat. replace (Z.to_nat (cur + Z.of_nat n - cur)) with n by lia.
+    replace (k + 1)%nat with (S k) by lia. repeat apply conj; try reflexivity; try lia.
+  - assert (Hlt : cur + Z.of_nat n < count) by lia. assert (Hn' : (0 < n)%nat) by (apply Hn; lia).
+    destruct (IH (S k) (cur + Z.of_nat n) (acc ++ keep_from tok cur (seg cur n))) as (from' & j & Hr & H1 & H2 & H3 & H4); [lia|lia|].
+    exists from', (S j). rewrite Hr. repeat apply conj; try lia.
+    f_equal; [|lia]. rewrite <- app_assoc. f_equal.
+    replace (Z.to_nat (from' - cur)) with (n + Z.to_nat (from' - (cur + Z.of_nat n)))%nat by lia.
+    rewrite seg_app by lia. rewrite keep_from_app. rewrite seg_length by lia. reflexivity.
+Qed.
+
+(* one poll against a well-behaved node: terminates without exhausting the fuel, delivers exactly the kept events of
+   stream[from .. from'), reaches at least the polled count, and needs at most max(1, count - from) page requests *)
+Theorem poll_wb : forall pg tok count from, 0 <= from -> wb_pages pg count ->
+  poll (Some count) pg tok from = PIdle /\ count = from \/
+  exists from' nreq, poll (Some count) pg tok from = PBatch from' (keep_from tok from (seg from (Z.to_nat (from' - from)))) nreq
+    /\ count <= from' /\ from <= from' <= loglen /\ (1 <= nreq)%nat /\ Z.of_nat nreq <= Z.max 1 (count - from)
+    /\ Z.of_nat nreq <= Z.max 0 (count - from) + 1.
+Proof.
+  intros pg tok count from Hf WB. unfold poll. destruct (count =? from) eqn:E.
+  - left. split; [reflexivity|lia].
+  - right. destruct (page_loop_wb pg tok count WB (poll_fuel from count) 0%nat from [] Hf) as (from' & j & Hr & H1 & H2 & H3 & H4).
+    + unfold poll_fuel. lia.
+    + exists from', j. rewrite Hr. cbn [app plus]. repeat apply conj; try reflexivity; lia.
+Qed.
+
+End Stream.
+
+(* ================================================================== C08: safety invariant over all histories *)
+Lemma to_unconfirmed_some : forall e m, to_unconfirmed e = Some m <-> e_index e = alph_wm_event_index /\ e_conv e = Some m.
+Proof.
+  intros e m. unfold to_unconfirmed. destruct (e_index e =? alph_wm_event_index) eqn:E.
+  - apply Z.eqb_eq in E. tauto.
+  - apply Z.eqb_neq in E. split; [discriminate|tauto].
+Qed.
+
+Definition plist (p : list pblock) : list uevent := flat_map pb_evs p.
+
+Section Safety.
+Variable c : cfg.
+(* provenance predicates, arbitrary: whatever holds for everything the node answered holds for what is forwarded *)
+Variable EP : cevent -> Prop.        (* "is an event of the configured governance contract" *)
+Variable HP : Z -> header -> Prop.   (* HP b h: "h is the header of block b" *)
+Variable AP : mc_ans -> Prop.        (* "is an answer of the node to the token-metadata multicall" *)
+
+Definition op_ok (o : op) : Prop :=
+  match o with
+  | OPoll cnt pg tok => (forall k s evs next, pg k s = Page evs next -> Forall EP evs) /\ (forall i, AP (tok i))
+  | OTick height now mc hd => forall b h, hd b = Some h -> HP b h
+  | OReobs r => (forall evs, r_events r = Some evs -> Forall (fun te => t_addr te = c_gov c -> EP (t_ev te)) evs)
+                /\ (forall b h, r_hd r b = Some h -> HP b h) /\ (forall i, AP (r_tok r i))
+  | _ => True
+  end.
+
+Definition attest_ok (m : wmsg) (ch : option tokinfo) : Prop :=
+  is_attest m = true -> exists t a, ch = Some t /\ m_tok m = Some t /\ AP a /\ get_token_info (ti_id t) a = TiOk t.
+
+Definition ugood (u : uevent) : Prop :=
+  EP (u_ev u) /\ to_unconfirmed (u_ev u) = Some (u_msg u) /\ attest_ok (u_msg u) (u_chain u).
+
+Definition bgood (b : pblock) : Prop :=
+  Forall (fun u => ugood u /\ e_block (u_ev u) = pb_hash b) (pb_evs b) /\ (forall h, pb_hdr b = Some h -> HP (pb_hash b) h).
+
+Definition Inv (s : wstate) : Prop :=
+  (forall l, w_inflight s = Some l -> Forall ugood l) /\ Forall bgood (w_pending s).
+
+Definition jcommon (f : fwd) : Prop :=
+  EP (f_ev f) /\ HP (e_block (f_ev f)) (f_hdr f) /\ e_index (f_ev f) = alph_wm_event_index /\ e_conv (f_ev f) = Some (f_msg f) /\
+  m_sender (f_msg f) = c_bridge c /\ attest_ok (f_msg f) (f_chain f).
+
+Definition justified (o : op) (f : fwd) : Prop :=
+  jcommon f /\
+  match o with
+  | OTick height now mc hd =>
+      mc (e_block (f_ev f)) = Some true /\ confirmed (c_mainnet c) (f_msg f) (f_hdr f) now height = true
+  | OReobs r =>
+      r_chain r = alph_chain_id /\ r_txlen r = alph_txid_len /\
+      r_status r = Some (Some (e_block (f_ev f))) /\ r_mc r = Some true /\
+      (exists te evs, r_events r = Some evs /\ In te evs /\ t_ev te = f_ev f /\ t_addr te = c_gov c) /\
+      (exists height, r_height r = Some height /\ confirmed (c_mainnet c) (f_msg f) (f_hdr f) (r_now r) height = true)
+  | _ => False
+  end.
+
+Lemma Inv_init : forall from0, Inv (init from0).
+Proof. intro from0. split; [intros l H; discriminate H|constructor]. Qed.
+
+(* ---- polling *)
+Lemma keep1_ugood : forall a e u, EP e -> AP a -> In u (keep1 a e) -> ugood u.
+Proof.
+  intros a e u He Ha H. apply keep1_good in H as (E & (G1 & G2) & G3). unfold ugood. rewrite E. repeat apply conj; auto.
+  - rewrite <- E. exact G1.
+  - intro A. destruct (G2 A) as (t & C1 & C2). destruct (G3 A) as (t' & C1' & C3). assert (t' = t) by congruence. subst t'.
+    exists t, a. auto.
+Qed.
+
+Lemma keep_from_ugood : forall tok evs idx, Forall EP evs -> (forall i, AP (tok i)) -> Forall ugood (keep_from tok idx evs).
+Proof.
+  intros tok evs idx He Ha. apply Forall_forall. intros u H. apply keep_from_in in H as (i & e & I & K).
+  eapply keep1_ugood; [|apply Ha|exact K]. rewrite Forall_forall in He. apply He. exact I.
+Qed.
+
+Lemma page_loop_ugood : forall pg tok count,
+  (forall k s evs next, pg k s = Page evs next -> Forall EP evs) -> (forall i, AP (tok i)) ->
+  forall fuel k cur acc from' batch n, Forall ugood acc -> page_loop pg tok fuel k cur count acc = PBatch from' batch n -> Forall ugood batch.
+Proof.
+  intros pg tok count Hp Ha. induction fuel as [|f IH]; intros k cur acc from' batch n Hacc H; [discriminate|].
+  cbn [page_loop] in H. destruct (pg k cur) as [|evs next] eqn:P; [discriminate|].
+  rewrite handle_unconfirmed_spec in H.
+  assert (G : Forall ugood (acc ++ keep_from tok cur evs)).
+  { apply Forall_app. split; [exact Hacc|]. apply keep_from_ugood; [eapply Hp; exact P|exact Ha]. }
+  destruct (alph_page_exit next count).
+  - injection H as <- <- <-. exact G.
+  - eapply IH; [exact G|exact H].
+Qed.
+
+(* ---- delivering a batch to the event loop *)
+Lemma add_event_bgood : forall p u, Forall bgood p -> ugood u -> Forall bgood (add_event p u).
+Proof.
+  intros p u Hp Hu. induction p as [|b t IH]; cbn [add_event].
+  - constructor; [|constructor]. split; cbn [pb_evs pb_hdr pb_hash]; [|intros h H; discriminate H].
+    constructor; [split; [exact Hu|reflexivity]|constructor].
+  - inversion Hp as [|b' t' Hb Ht]; subst. destruct (pb_hash b =? e_block (u_ev u)) eqn:E.
+    + apply Z.eqb_eq in E. constructor; [|exact Ht]. destruct Hb as [Hb1 Hb2]. split; cbn [pb_evs pb_hdr pb_hash]; [|exact Hb2].
+      apply Forall_app. split; [exact Hb1|]. constructor; [split; [exact Hu|symmetry; exact E]|constructor].
+    + constructor; [exact Hb|apply IH; exact Ht].
+Qed.
+
+Lemma add_batch_bgood : forall l p, Forall bgood p -> Forall ugood l -> Forall bgood (add_batch p l).
+Proof.
+  unfold add_batch. induction l as [|u l IH]; intros p Hp Hl; cbn [fold_left]; [exact Hp|].
+  inversion Hl; subst. apply IH; [apply add_event_bgood; assumption|assumption].
+Qed.
+
+(* ---- height tick *)
+Definition cgood (height now : Z) (mc : Z -> option bool) (x : uevent * header) : Prop :=
+  ugood (fst x) /\ HP (e_block (u_ev (fst x))) (snd x) /\ mc (e_block (u_ev (fst x))) = Some true /\
+  confirmed (c_mainnet c) (u_msg (fst x)) (snd x) now height = true.
+
+Lemma process_block_good : forall height now mc hd b k conf,
+  (forall b h, hd b = Some h -> HP b h) -> bgood b ->
+  process_block (c_mainnet c) height now mc hd b = BOk k conf ->
+  (forall b', k = Some b' -> bgood b') /\ Forall (cgood height now mc) conf.
+Proof.
+  intros height now mc hd b k conf Hhd [Hb1 Hb2] H. unfold process_block in H.
+  destruct (mc (pb_hash b)) as [canon|] eqn:M; [|discriminate].
+  destruct (match pb_hdr b with Some h => Some h | None => hd (pb_hash b) end) as [h|] eqn:Hh; [|discriminate].
+  assert (HPh : HP (pb_hash b) h).
+  { destruct (pb_hdr b) as [h'|] eqn:P; [injection Hh as <-; apply Hb2; reflexivity|apply Hhd; exact Hh]. }
+  injection H as <- <-. split.
+  - intros b' Hk. destruct (filter _ (pb_evs b)) as [|x r] eqn:F; [discriminate|]. injection Hk as <-.
+    split; cbn [pb_evs pb_hdr pb_hash]; [|intros h' Hq; injection Hq as <-; exact HPh].
+    rewrite <- F. apply Forall_forall. intros u Hu. apply filter_In in Hu as [Hu _]. rewrite Forall_forall in Hb1. apply Hb1. exact Hu.
+  - destruct canon; [|constructor]. apply Forall_forall. intros [u h'] Hx. apply in_map_iff in Hx as (u' & Hx & Hu').
+    injection Hx as <- <-. apply filter_In in Hu' as [Hu' Hc]. rewrite Forall_forall in Hb1. destruct (Hb1 _ Hu') as [G E].
+    unfold cgood. cbn [fst snd]. rewrite E. auto.
+Qed.
+
+Lemma process_blocks_good : forall height now mc hd p p' conf,
+  (forall b h, hd b = Some h -> HP b h) -> Forall bgood p ->
+  process_blocks (c_mainnet c) height now mc hd p = Some (p', conf) ->
+  Forall bgood p' /\ Forall (cgood height now mc) conf.
+Proof.
+  intros height now mc hd p. induction p as [|b t IH]; intros p' conf Hhd Hp H; cbn [process_blocks] in H.
+  - injection H as <- <-. split; constructor.
+  - inversion Hp as [|b0 t0 Hb Ht]; subst.
+    destruct (process_block (c_mainnet c) height now mc hd b) as [|k cf] eqn:B; [discriminate|].
+    destruct (process_blocks (c_mainnet c) height now mc hd t) as [[q cf']|] eqn:R; [|discriminate].
+    injection H as <- <-. destruct (IH _ _ Hhd Ht eq_refl) as [I1 I2].
+    destruct (process_block_good _ _ _ _ _ _ _ Hhd Hb B) as [K1 K2]. split.
+    + destruct k as [b'|]; [constructor; [apply K1; reflexivity|exact I1]|exact I1].
+    + apply Forall_app. split; assumption.
+Qed.
+
+Lemma handle_confirmed_just : forall height now mc hd conf, Forall (cgood height now mc) conf ->
+  Forall (justified (OTick height now mc hd)) (fst (handle_confirmed (c_bridge c) conf)).
+Proof.
+  intros height now mc hd conf. induction conf as [|[u h] t IH]; intro H; cbn [handle_confirmed]; [constructor|].
+  inversion H as [|x t' Hx Ht]; subst. destruct (e_index (u_ev u) =? alph_wm_event_index) eqn:E; [|constructor].
+  specialize (IH Ht). destruct (handle_confirmed (c_bridge c) t) as [f e]. cbn [fst] in *.
+  destruct (m_sender (u_msg u) =? c_bridge c) eqn:S; [|exact IH]. cbn [fst]. constructor; [|exact IH].
+  destruct Hx as ((G1 & G2 & G3) & Hh & Hm & Hc). cbn [fst snd] in *. apply to_unconfirmed_some in G2 as [G2 G2'].
+  apply Z.eqb_eq in S. unfold justified, jcommon, mkfwd. cbn [f_ev f_msg f_hdr f_chain]. repeat apply conj; auto.
+Qed.
+
+(* handleConfirmedEvents never meets an unknown event index: toUnconfirmedEvent has filtered it *)
+Lemma handle_confirmed_noerr : forall height now mc conf, Forall (cgood height now mc) conf ->
+  snd (handle_confirmed (c_bridge c) conf) = false.
+Proof.
+  intros height now mc conf. induction conf as [|[u h] t IH]; intro H; cbn [handle_confirmed]; [reflexivity|].
+  inversion H as [|x t' Hx Ht]; subst. destruct Hx as ((G1 & G2 & G3) & _). cbn [fst] in G2. apply to_unconfirmed_some in G2 as [G2 _].
+  rewrite G2, Z.eqb_refl. specialize (IH Ht). destruct (handle_confirmed (c_bridge c) t) as [f e]. cbn [snd] in *.
+  destruct (m_sender (u_msg u) =? c_bridge c); exact IH.
+Qed.
+
+(* ---- re-observation *)
+Lemma reobs_filters : alph_reobs_addr_filter = true /\ alph_reobs_block_filter = true /\ alph_reobs_wallclock = true.
+Proof. repeat split. Qed.
+
+Definition rgood (r : reobs_in) (evs : list tevent) (blk : Z) (x : tevent * uevent * header) : Prop :=
+  let '(te, u, h) := x in
+  In te evs /\ t_ev te = u_ev u /\ t_addr te = c_gov c /\ e_block (u_ev u) = blk /\ r_hd r blk = Some h /\
+  to_unconfirmed (u_ev u) = Some (u_msg u) /\ attest_ok (u_msg u) (u_chain u).
+
+Lemma gov_events_good : forall r blk all evs pos l, (forall i, AP (r_tok r i)) -> incl evs all ->
+  gov_events c blk (r_hd r) (r_tok r) pos evs = GeOk l -> Forall (rgood r all blk) l.
+Proof.
+  intros r blk all evs. induction evs as [|te t IH]; intros pos l Ha Hi H; cbn [gov_events] in H.
+  - injection H as <-. constructor.
+  - assert (Hi' : incl t all) by (intros x Hx; apply Hi; right; exact Hx).
+    assert (Hte : In te all) by (apply Hi; left; reflexivity).
+    destruct reobs_filters as (FA & FB & _). rewrite FA, FB in H. cbn [andb] in H.
+    destruct (negb (e_index (t_ev te) =? alph_wm_event_index)) eqn:EI; [eapply IH; eauto|].
+    destruct (negb (t_addr te =? c_gov c)) eqn:EA; [eapply IH; eauto|].
+    destruct (negb (e_block (t_ev te) =? blk)) eqn:EB; [eapply IH; eauto|].
+    apply negb_false_iff in EI, EA, EB. apply Z.eqb_eq in EI, EA, EB.
+    destruct (r_hd r (e_block (t_ev te))) as [h|] eqn:Hh; [|discriminate].
+    destruct (e_conv (t_ev te)) as [m|] eqn:Cv; [|discriminate].
+    assert (TU : to_unconfirmed (t_ev te) = Some m) by (apply to_unconfirmed_some; auto).
+    destruct (is_attest m) eqn:A.
+    + destruct (validate_attest m (r_tok r pos)) as [ti| |] eqn:V; [|eapply IH; eauto|discriminate].
+      destruct (gov_events c blk (r_hd r) (r_tok r) (pos + 1) t) as [| |l'] eqn:R; try discriminate.
+      cbn [ge_cons] in H. injection H as <-. constructor; [|eapply IH; eauto].
+      unfold rgood. cbn [u_ev u_msg u_chain]. rewrite <- EB. repeat apply conj; auto.
+      intros _. apply validate_attest_ok in V as [V1 V2]. exists ti, (r_tok r pos). auto.
+    + destruct (gov_events c blk (r_hd r) (r_tok r) (pos + 1) t) as [| |l'] eqn:R; try discriminate.
+      cbn [ge_cons] in H. injection H as <-. constructor; [|eapply IH; eauto].
+      unfold rgood. cbn [u_ev u_msg u_chain]. rewrite <- EB. repeat apply conj; auto.
+      intro A'. rewrite A in A'. discriminate.
+Qed.
+
+Lemma gov_events_no_panic : forall blk hd tok evs pos, gov_events c blk hd tok pos evs <> GePanic.
+Proof.
+  intros blk hd tok evs. induction evs as [|te t IH]; intro pos; cbn [gov_events]; [discriminate|].
+  destruct (negb (e_index (t_ev te) =? alph_wm_event_index)); [apply IH|].
+  destruct (alph_reobs_addr_filter && negb (t_addr te =? c_gov c)); [apply IH|].
+  destruct (alph_reobs_block_filter && negb (e_block (t_ev te) =? blk)); [apply IH|].
+  destruct (hd (e_block (t_ev te))); [|discriminate]. destruct (e_conv (t_ev te)) as [m|]; [|discriminate].
+  specialize (IH (pos + 1)).
+  destruct (is_attest m).
+  - pose proof (validate_attest_no_panic m (tok pos)) as P. destruct (validate_attest m (tok pos)) as [ti| |]; [|exact IH|congruence].
+    destruct (gov_events c blk hd tok (pos + 1) t); cbn [ge_cons]; congruence.
+  - destruct (gov_events c blk hd tok (pos + 1) t); cbn [ge_cons]; congruence.
+Qed.
+
+Lemma reobserve_flag : forall r, snd (reobserve c r) = FNone.
+Proof.
+  intro r. unfold reobserve. destruct (negb (r_chain r =? alph_chain_id)); [reflexivity|].
+  destruct (negb (r_txlen r =? alph_txid_len)); [reflexivity|].
+  destruct (r_status r) as [[blk|]|]; try reflexivity. destruct (r_events r) as [evs|]; [|reflexivity].
+  pose proof (gov_events_no_panic blk (r_hd r) (r_tok r) evs 0) as P.
+  destruct (gov_events c blk (r_hd r) (r_tok r) 0 evs); try reflexivity; [congruence|].
+  destruct (r_mc r) as [[|]|]; try reflexivity. destruct (r_height r); reflexivity.
+Qed.
+
+Lemma reobserve_just : forall r, op_ok (OReobs r) -> Forall (justified (OReobs r)) (fst (reobserve c r)).
+Proof.
+  intros r (He & Hh & Ha). unfold reobserve.
+  destruct (negb (r_chain r =? alph_chain_id)) eqn:EC; [constructor|].
+  destruct (negb (r_txlen r =? alph_txid_len)) eqn:EL; [constructor|].
+  apply negb_false_iff in EC, EL. apply Z.eqb_eq in EC, EL.
+  destruct (r_status r) as [[blk|]|] eqn:St; try constructor. destruct (r_events r) as [evs|] eqn:Ev; [|constructor].
+  destruct (gov_events c blk (r_hd r) (r_tok r) 0 evs) as [| |l] eqn:G; try constructor.
+  apply (gov_events_good r blk evs) in G; [|exact Ha|apply incl_refl].
+  destruct (r_mc r) as [[|]|] eqn:Mc; try constructor. destruct (r_height r) as [height|] eqn:Ht; [|constructor].
+  cbn [fst]. apply Forall_forall. intros f Hf. apply in_map_iff in Hf as ([[te u] h] & <- & Hx).
+  apply filter_In in Hx as [Hx Hs]. apply filter_In in Hx as [Hx Hc]. cbn [fst snd] in *.
+  rewrite Forall_forall in G. specialize (G _ Hx). destruct G as (G1 & G2 & G3 & G4 & G5 & G6 & G7).
+  apply Z.eqb_eq in Hs. unfold reobs_confirmed in Hc. destruct reobs_filters as (_ & _ & FW). rewrite FW in Hc.
+  pose proof (proj1 (to_unconfirmed_some _ _) G6) as [I1 I2].
+  assert (J1 : EP (u_ev u)).
+  { specialize (He _ eq_refl). rewrite Forall_forall in He. rewrite <- G2. apply He; assumption. }
+  assert (J2 : HP blk h) by (apply Hh; exact G5).
+  assert (J3 : exists te0 evs0, Some evs = Some evs0 /\ In te0 evs0 /\ t_ev te0 = u_ev u /\ t_addr te0 = c_gov c) by (exists te, evs; auto).
+  assert (J4 : exists height0, Some height = Some height0 /\ confirmed (c_mainnet c) (u_msg u) h (r_now r) height0 = true) by (exists height; auto).
+  unfold justified, jcommon, mkfwd. cbn [f_ev f_msg f_hdr f_chain]. rewrite St, Ev, Mc, Ht. subst blk. repeat apply conj; assumption || reflexivity.
+Qed.
+
+(* ---- one step *)
+Theorem step_safe : forall s o, Inv s -> op_ok o ->
+  Inv (fst (step c s o)) /\ Forall (justified o) (o_fwd (snd (step c s o))).
+Proof.
+  intros s o HI Hok. pose proof HI as [I1 I2]. unfold step. destruct (w_dead s) eqn:D; [split; [exact HI|constructor]|].
+  assert (Hdie : Inv (die s)) by (split; [exact I1|exact I2]).
+  destruct o as [cnt pg tok| |height now mc hd|r|].
+  - destruct (w_inflight s) as [l0|] eqn:F; [split; [exact HI|constructor]|].
+    destruct Hok as [Hp Ha].
+    destruct (poll cnt pg tok (w_from s)) as [|from' batch n| | |] eqn:P; cbn [fst snd o_fwd out0];
+      try (split; [exact HI || exact Hdie|constructor]).
+    split; [|constructor]. split; cbn [w_inflight w_pending]; [|exact I2].
+    intros l Hl. injection Hl as <-. unfold poll in P. destruct cnt as [count|]; [|discriminate].
+    destruct (count =? w_from s); [discriminate|].
+    eapply page_loop_ugood; [exact Hp|exact Ha| |exact P]. constructor.
+  - destruct (w_inflight s) as [l|] eqn:F; cbn [fst snd o_fwd out0]; [|split; [exact HI|constructor]].
+    split; [|constructor]. split; cbn [w_inflight w_pending]; [intros l' H; discriminate H|].
+    apply add_batch_bgood; [exact I2|apply (proj1 HI); exact F].
+  - destruct (process_blocks (c_mainnet c) height now mc hd (w_pending s)) as [[p' conf]|] eqn:R.
+    + destruct (process_blocks_good _ _ _ _ _ _ _ Hok I2 R) as [G1 G2].
+      pose proof (handle_confirmed_just height now mc hd conf G2) as J.
+      destruct (handle_confirmed (c_bridge c) conf) as [f err]. cbn [fst snd o_fwd] in *.
+      split; [split; cbn [w_inflight w_pending]; assumption|exact J].
+    + cbn [fst snd o_fwd]. split; [exact Hdie|constructor].
+  - pose proof (reobserve_just r Hok) as J. pose proof (reobserve_flag r) as Fl.
+    destruct (reobserve c r) as [f fl]. cbn [fst snd] in *. subst fl. cbn [o_fwd]. split; [exact HI|exact J].
+  - cbn [fst snd o_fwd]. split; [exact Hdie|constructor].
+Qed.
+
+(* ---- every history *)
+Fixpoint all_justified (s : wstate) (ops : list op) : Prop :=
+  match ops with
+  | [] => True
+  | o :: t => Forall (justified o) (o_fwd (snd (step c s o))) /\ all_justified (fst (step c s o)) t
+  end.
+
+Theorem safety_all_histories : forall ops s, Inv s -> Forall op_ok ops -> all_justified s ops.
+Proof.
+  induction ops as [|o t IH]; intros s HI Hok; cbn [all_justified]; [exact I|].
+  inversion Hok as [|o' t' Ho Ht]; subst. destruct (step_safe s o HI Ho) as [HI' J]. split; [exact J|apply IH; assumption].
+Qed.
+
+End Safety.
+
+(* ================================================================== accounting: nothing is forwarded twice *)
+Definition cnt (p : uevent -> bool) (l : list uevent) : nat := length (filter p l).
+Definition fwd_u (f : fwd) : uevent := {| u_ev := f_ev f; u_msg := f_msg f; u_chain := f_chain f |}.
+
+Lemma fwd_u_mkfwd : forall u h, fwd_u (mkfwd u h) = u.
+Proof. intros [e m ch] h. reflexivity. Qed.
+
+Lemma cnt_app : forall p a b, cnt p (a ++ b) = (cnt p a + cnt p b)%nat.
+Proof. intros. unfold cnt. rewrite filter_app, app_length. reflexivity. Qed.
+
+Lemma cnt_filter_split : forall p f l, (cnt p (filter f l) + cnt p (filter (fun x => negb (f x)) l) = cnt p l)%nat.
+Proof.
+  intros p f l. unfold cnt. induction l as [|x l IH]; [reflexivity|]. cbn [filter].
+  destruct (f x); cbn [negb filter]; destruct (p x); cbn [length]; lia.
+Qed.
+
+Lemma cnt_filter_le : forall p f l, (cnt p (filter f l) <= cnt p l)%nat.
+Proof. intros p f l. pose proof (cnt_filter_split p f l). lia. Qed.
+
+Lemma plist_add_event : forall p P u, cnt p (plist (add_event P u)) = (cnt p (plist P) + cnt p [u])%nat.
+Proof.
+  intros p P u. induction P as [|b t IH]; cbn [add_event].
+  - unfold plist. cbn [flat_map pb_evs]. rewrite app_nil_r. reflexivity.
+  - destruct (pb_hash b =? e_block (u_ev u)).
+    + unfold plist. cbn [flat_map pb_evs]. rewrite !cnt_app. lia.
+    + unfold plist in *. cbn [flat_map]. rewrite !cnt_app, IH. lia.
+Qed.
+
+Lemma plist_add_batch : forall p l P, cnt p (plist (add_batch P l)) = (cnt p (plist P) + cnt p l)%nat.
+Proof.
+  intros p l. unfold add_batch. induction l as [|u l IH]; intro P; cbn [fold_left].
+  - unfold cnt at 3. cbn. lia.
+  - rewrite IH, plist_add_event. change (u :: l) with ([u] ++ l). rewrite cnt_app. lia.
+Qed.
+
+Lemma process_block_count : forall p mn height now mc hd b k conf,
+  process_block mn height now mc hd b = BOk k conf ->
+  (cnt p (map fst conf) + cnt p (match k with Some b' => pb_evs b' | None => [] end) <= cnt p (pb_evs b))%nat.
+Proof.
+  intros p mn height now mc hd b k conf H. unfold process_block in H.
+  destruct (mc (pb_hash b)) as [canon|]; [|discriminate].
+  destruct (match pb_hdr b with Some h => Some h | None => hd (pb_hash b) end) as [h|]; [|discriminate].
+  injection H as <- <-.
+  pose proof (cnt_filter_split p (fun u => confirmed mn (u_msg u) h now height) (pb_evs b)) as S.
+  set (remain := filter (fun u => negb (confirmed mn (u_msg u) h now height)) (pb_evs b)) in *.
+  assert (K : cnt p (match (match remain with [] => None | _ :: _ => Some {| pb_hash := pb_hash b; pb_hdr := Some h; pb_evs := remain |} end) with
+                     | Some b' => pb_evs b' | None => [] end) = cnt p remain) by (destruct remain; reflexivity).
+  rewrite K. destruct canon.
+  - rewrite map_map. cbn [fst]. rewrite map_id. lia.
+  - cbn [map]. unfold cnt at 1. cbn. lia.
+Qed.
+
+Lemma process_blocks_count : forall p mn height now mc hd P P' conf,
+  process_blocks mn height now mc hd P = Some (P', conf) ->
+  (cnt p (map fst conf) + cnt p (plist P') <= cnt p (plist P))%nat.
+Proof.
+  intros p mn height now mc hd P. induction P as [|b t IH]; intros P' conf H; cbn [process_blocks] in H.
+  - injection H as <- <-. cbn. lia.
+  - destruct (process_block mn height now mc hd b) as [|k cf] eqn:B; [discriminate|].
+    destruct (process_blocks mn height now mc hd t) as [[q cf']|] eqn:R; [|discriminate].
+    injection H as <- <-. specialize (IH _ _ eq_refl). pose proof (process_block_count p _ _ _ _ _ _ _ _ B) as C.
+    rewrite map_app, cnt_app. unfold plist in *. cbn [flat_map]. rewrite cnt_app.
+    destruct k as [b'|]; cbn [flat_map]; rewrite ?cnt_app; lia.
+Qed.
+
+Lemma handle_confirmed_count : forall p br conf,
+  (cnt p (map fwd_u (fst (handle_confirmed br conf))) <= cnt p (map fst conf))%nat.
+Proof.
+  intros p br conf. induction conf as [|[u h] t IH]; cbn [handle_confirmed]; [cbn; lia|].
+  destruct (e_index (u_ev u) =? alph_wm_event_index); [|cbn [fst map]; unfold cnt at 1; cbn; lia].
+  destruct (handle_confirmed br t) as [f e]. cbn [fst] in *. cbn [map fst].
+  change (u :: map fst t) with ([u] ++ map fst t). rewrite cnt_app.
+  destruct (m_sender (u_msg u) =? br); cbn [fst map]; [|lia].
+  rewrite fwd_u_mkfwd. change (u :: map fwd_u f) with ([u] ++ map fwd_u f). rewrite cnt_app. lia.
+Qed.
+
+(* what the watcher holds: pending events plus the batch in flight between fetchEvents and the event loop *)
+Definition held (s : wstate) : list uevent := plist (w_pending s) ++ match w_inflight s with Some l => l | None => [] end.
+(* messages forwarded by the polling path in a step *)
+Definition tick_fwd (o : op) (x : out) : list uevent := match o with OTick _ _ _ _ => map fwd_u (o_fwd x) | _ => [] end.
+
+Lemma held_die : forall s, held (die s) = held s.
+Proof. reflexivity. Qed.
+Lemma cnt_nil : forall p, cnt p [] = 0%nat.
+Proof. reflexivity. Qed.
+
+Lemma step_count : forall c p s o,
+  (cnt p (tick_fwd o (snd (step c s o))) + cnt p (held (fst (step c s o))) <= cnt p (held s) + cnt p (o_batch (snd (step c s o))))%nat.
+Proof.
+  intros c p s o. unfold step.
+  assert (Triv : forall o', (cnt p (tick_fwd o' out0) + cnt p (held s) <= cnt p (held s) + cnt p (o_batch out0))%nat).
+  { intro o'. destruct o'; cbn [tick_fwd out0 o_fwd o_batch map]; rewrite ?cnt_nil; lia. }
+  destruct (w_dead s); [apply Triv|].
+  destruct o as [cn pg tok| |height now mc hd|r|].
+  - destruct (w_inflight s) as [l0|] eqn:F; [apply Triv|].
+    destruct (poll cn pg tok (w_from s)) as [|from' batch n| | |];
+      [apply (Triv (OPoll cn pg tok))| |cbn [fst snd tick_fwd o_batch]; rewrite held_die, !cnt_nil; lia ..].
+    cbn [fst snd tick_fwd o_batch]. unfold held. cbn [w_pending w_inflight]. rewrite F, !cnt_app, cnt_nil. lia.
+  - destruct (w_inflight s) as [l|] eqn:F; [|apply Triv]. cbn [fst snd tick_fwd o_batch out0].
+    unfold held. cbn [w_pending w_inflight]. rewrite F, !cnt_app, plist_add_batch, !cnt_nil. lia.
+  - destruct (process_blocks (c_mainnet c) height now mc hd (w_pending s)) as [[p' conf]|] eqn:R.
+    + pose proof (process_blocks_count p _ _ _ _ _ _ _ _ R) as C. pose proof (handle_confirmed_count p (c_bridge c) conf) as Hc.
+      destruct (handle_confirmed (c_bridge c) conf) as [f err]. cbn [fst snd tick_fwd o_fwd o_batch] in *.
+      unfold held. cbn [w_pending w_inflight]. rewrite !cnt_app, cnt_nil. lia.
+    + cbn [fst snd tick_fwd o_fwd o_batch map]. rewrite held_die, !cnt_nil. lia.
+  - destruct (reobserve c r) as [f fl]. cbn [fst snd tick_fwd o_batch]. destruct fl; rewrite ?held_die, !cnt_nil; lia.
+  - cbn [fst snd tick_fwd o_batch]. rewrite held_die, !cnt_nil. lia.
+Qed.
+
+(* the batches produced and the messages forwarded on the polling path along a history *)
+Fixpoint batches (c : cfg) (s : wstate) (ops : list op) : list uevent :=
+  match ops with [] => [] | o :: t => o_batch (snd (step c s o)) ++ batches c (fst (step c s o)) t end.
+Fixpoint tick_fwds (c : cfg) (s : wstate) (ops : list op) : list uevent :=
+  match ops with [] => [] | o :: t => tick_fwd o (snd (step c s o)) ++ tick_fwds c (fst (step c s o)) t end.
+Fixpoint final (c : cfg) (s : wstate) (ops : list op) : wstate :=
+  match ops with [] => s | o :: t => final c (fst (step c s o)) t end.
+
+Theorem forwarded_at_most_fetched : forall c p ops s,
+  (cnt p (tick_fwds c s ops) + cnt p (held (final c s ops)) <= cnt p (held s) + cnt p (batches c s ops))%nat.
+Proof.
+  intros c p ops. induction ops as [|o t IH]; intro s; cbn [tick_fwds batches final]; [cbn; lia|].
+  rewrite !cnt_app. specialize (IH (fst (step c s o))). pose proof (step_count c p s o). lia.
+Qed.
+
+Lemma run_final : forall c ops s, snd (run c s ops) = final c s ops.
+Proof.
+  intros c ops. induction ops as [|o t IH]; intro s; cbn [run final]; [reflexivity|].
+  destruct (step c s o) as [s' x]. cbn [fst]. specialize (IH s'). destruct (run c s' t) as [xs s'']. cbn [snd] in *. exact IH.
+Qed.
+
+(* ================================================================== the block poller stays enabled while events are pending *)
+Lemma process_blocks_nil : forall mn height now mc hd P conf, process_blocks mn height now mc hd P = Some ([], conf) -> P = [] \/ P <> [].
+Proof. intros. destruct P; [left; reflexivity|right; discriminate]. Qed.
+
+Lemma add_batch_nonempty : forall l P, add_batch P l <> [] -> P <> [] \/ l <> [].
+Proof. intros l P H. destruct l; [left; exact H|right; discriminate]. Qed.
+
+Definition poller_inv (s : wstate) : Prop := w_pending s <> [] -> w_enabled s = true.
+
+Lemma step_poller : forall c s o, poller_inv s -> poller_inv (fst (step c s o)).
+Proof.
+  intros c s o I. unfold step. destruct (w_dead s); [exact I|].
+  destruct o as [cn pg tok| |height now mc hd|r|].
+  - destruct (w_inflight s); [exact I|]. destruct (poll cn pg tok (w_from s)); exact I.
+  - destruct (w_inflight s) as [l|]; [|exact I]. cbn [fst]. unfold poller_inv. cbn [w_pending w_enabled].
+    intro H. destruct l as [|u l]; cbn [is_nil]; [|reflexivity]. apply I. exact H.
+  - destruct (process_blocks (c_mainnet c) height now mc hd (w_pending s)) as [[p' conf]|] eqn:R; [|exact I].
+    destruct (handle_confirmed (c_bridge c) conf) as [f err]. cbn [fst]. unfold poller_inv. cbn [w_pending w_enabled].
+    intro H. destruct p' as [|b p']; [congruence|]. cbn [is_nil]. apply I. destruct (w_pending s); [|discriminate].
+    cbn [process_blocks] in R. discriminate.
+  - destruct (reobserve c r) as [f fl]. destruct fl; exact I.
+  - exact I.
+Qed.
+
+Theorem poller_enabled_while_pending : forall c ops from0, poller_inv (final c (init from0) ops).
+Proof.
+  intros c ops from0. assert (G : forall s, poller_inv s -> poller_inv (final c s ops)).
+  { induction ops as [|o t IH]; intros s I; cbn [final]; [exact I|]. apply IH. apply step_poller. exact I. }
+  apply G. intro H. exfalso. apply H. reflexivity.
 Qed.
